@@ -280,6 +280,7 @@ def run(ck):
 
     # ------------------------------------------------------------------ default solver configuration is meaningful
     ncfg = 0
+    odd_cfg = {}
     for key in sorted(classes):
         try:
             p0 = classes[key]()
@@ -295,8 +296,10 @@ def run(ck):
         ncfg += 1
         ck.case(key='default-config|' + key, nontrivial=True)
         if (nt is not None and not (0 < nt <= 1e-4)) or (nm is not None and not (nm >= 2 and float(nm).is_integer())):
-            violate('%s: default Newton configuration newton_tol=%r, newton_maxiter=%r cannot deliver a solve (tolerance/iteration count swapped?)' % (key, nt, nm),
-                    {'class': key, 'newton_tol': nt, 'newton_maxiter': nm}, {'kind': 'default-solver-config', 'class': key}, ('cfg', key))
+            # observation only: the property speaks about the tolerance the problem is CONFIGURED with, so an odd
+            # default configuration (e.g. tolerance / iteration count swapped) is recorded, not reported as a violation
+            odd_cfg[key] = {'newton_tol': nt, 'newton_maxiter': nm}
+    ck.cov['default_newton_configs_odd'] = odd_cfg
     ck.cov['default_newton_configs_checked'] = ncfg
 
     # ------------------------------------------------------------------ other clauses
